@@ -542,16 +542,19 @@ def run(chk):
     rules_C03.run(sub)
     n_sub = 0
     for r in sub.rules:
-        if r.id in ("C03.R1", "C03.R4"):
+        if r.id in ("C03.R1", "C03.R4", "C03.R6"):
             n_sub += r.obligations
             for fnd in r.findings:
                 if "_readsegment" in fnd.key or "_misc_cmd" in fnd.key:
                     r5.fail("via-" + fnd.key, "the reader that delivers the config reply is split-dependent: " + fnd.msg, file=fnd.file, line=fnd.line)
-    r5.ok("the token-terminated reader behind raw_command satisfies C03.R1/R4 (%d obligations re-checked here)" % n_sub)
+    for key, msg in sub.undecided:
+        if key.split(":")[0] == "C03.R6" and "_readsegment" in key:
+            chk.undecided.append(("via-" + key, msg))
+    r5.ok("the token-terminated reader behind raw_command satisfies C03.R1/R4 and the segmentation rows of C03.R6 (%d obligations re-checked here)" % n_sub)
     # ------------------------------------------------------------------ R6 histories of re-discoveries
     r6 = chk.rule("C19.R6", "histories: the AWS client interpreted on a concrete cluster under every sequence of operations, re-discoveries with another advertised node list, failures of a node and elapsed time (depth 7): after every re-discovery rotation and client table are exactly the advertised nodes, dropped client objects are closed once and live ones never; every operation contacts advertised nodes only and nothing but the node's own error escapes")
     from . import failhist
 
     failhist.reconfigure_histories(prog, r6, chk.tier)
-    chk.assume("delivery independence of raw_command's reader is decided by the C03.R1/R4 rules, re-run here for the segment reader")
+    chk.assume("delivery independence of raw_command's reader is decided by the C03.R1/R4 rules and the segmentation rows C03.R6, re-run here for the segment reader")
     chk.assume("once hasher nodes == clients keys == advertised nodes, routing is C11/C12")
